@@ -44,6 +44,9 @@ def main():
         core.DEADLINE[0] = time.time() + limit
     except Exception:
         pass
+    reach = core.Reach(a.pid)
+    if not a.replay:
+        reach.start()
     try:
         if a.replay:
             rp = json.loads(open(a.replay).read())
@@ -61,6 +64,7 @@ def main():
                 mod.run(ctx)
         else:
             mod.run(ctx)
+        ctx.reach_report = reach.stop()
         return core.finish(ctx, mod)
     except core.DriverError as e:
         # the model side cannot run: a broken obligation, never silently green
@@ -94,6 +98,7 @@ def main():
             return core.finish(ctx, mod)
         return 2
     finally:
+        reach.stop()
         try:
             signal.alarm(0)
         except Exception:
